@@ -146,6 +146,14 @@ def run(case, ctx):
         t = math.trunc(scaled)
         exp = max(lo, min(hi, t))
         r = f(v)
+        if len(exact) % 3 == 0 and isinstance(v, float):
+            # a value that comes out of a numpy computation is a float too
+            # (numpy.float64 is a subclass of float)
+            r64 = f(np.float64(v))
+            ctx.hit("scalar_from_numpy_float64")
+            check(int(r64) == r, "scalar-value",
+                  "float_to_fp(numpy.float64(%r)) = %r, float_to_fp(%r) = %r"
+                  % (v, r64, v, r), value=v, **fmt)
         ctx.hit("scalar_exact")
         check(isinstance(r, int) and not isinstance(r, bool) and r == exp,
               "scalar-value", "float_to_fp(%r) = %r, exact %r" % (v, r, exp),
@@ -294,6 +302,12 @@ def run(case, ctx):
             for v, e in zip(vals, exact):
                 ctx.hit("deprecated_vs_scalar")
                 r = df(v)
+                if isinstance(v, float):
+                    r64 = df(np.float64(v))
+                    check(int(r64) == int(r), "deprecated-float-to-fix",
+                          "float_to_fix(numpy.float64(%r)) = %r, "
+                          "float_to_fix(%r) = %r" % (v, r64, v, r),
+                          value=v, **fmt)
                 check(int(r) == e % (1 << nb), "deprecated-float-to-fix",
                       "float_to_fix(%r) = %r want %r (= %r mod 2^%d)" %
                       (v, r, e % (1 << nb), e, nb), value=v, **fmt)
